@@ -1,3 +1,197 @@
+import Driver.Util
 import Driver.Loop
-/- placeholder: the C05 view has no executable model yet -/
-def main : IO Unit := Drv.runLoop fun _ => .atom "bad-op"
+import PMV.Model.WF
+/- line-protocol handlers for the C05 view: `wf` evaluates the Lean predicate on dumps of real objects,
+   `ctor` and `prog` run the code-shaped model -/
+namespace Drv.C05
+open PMV PMV.Gen PMV.WF Drv
+
+def parseKind : Sx → Option Kind
+  | .atom "float" => some .float | .atom "int" => some .int | .atom "bool" => some .bool
+  | .atom "other" => some .other | _ => none
+
+def kindSx : Kind → Sx
+  | .float => .atom "float" | .int => .atom "int" | .bool => .atom "bool" | .other => .atom "other"
+
+def parseMaskD : Sx → Option MaskD
+  | .list [.atom "S", b] => b.toBool?.map .scalar
+  | .list [.atom "N", b] => b.toBool?.map .npbool
+  | .list [.atom "A", s, k, w] => do
+    let s ← s.nats?; let k ← k.toBool?; let w ← w.toBool?
+    some (.array s k w)
+  | .list [.atom "X"] => some .other
+  | _ => none
+
+def maskSx : MaskD → Sx
+  | .scalar b => .list [.atom "S", Sx.ofBool b]
+  | .npbool b => .list [.atom "N", Sx.ofBool b]
+  | .array s k w => .list [.atom "A", Sx.ofNats s, Sx.ofBool k, Sx.ofBool w]
+  | .other => .list [.atom "X"]
+
+partial def parseDump : Sx → Option ObjDump
+  | .list [.atom cls, kind, varr, vshape, vwrit, mask, shape, numer, denom, item, rank, nrank, drank, sz, isz, nsz, dsz,
+           dshape, dkind, units, ro, complete, .list derivs, .list attrs] => do
+    let cls ← Cls.ofName? cls
+    let kind ← parseKind kind
+    let varr ← varr.toBool?
+    let vshape ← vshape.nats?
+    let vwrit ← vwrit.toBool?
+    let mask ← parseMaskD mask
+    let shape ← shape.nats?
+    let numer ← numer.nats?
+    let denom ← denom.nats?
+    let item ← item.nats?
+    let rank ← rank.toNat?
+    let nrank ← nrank.toNat?
+    let drank ← drank.toNat?
+    let sz ← sz.toNat?
+    let isz ← isz.toNat?
+    let nsz ← nsz.toNat?
+    let dsz ← dsz.toNat?
+    let dshape ← dshape.nats?
+    let dkind ← parseKind dkind
+    let units ← units.toBool?
+    let ro ← ro.toBool?
+    let complete ← complete.toBool?
+    let derivs ← derivs.mapM fun x => match x with
+      | .list [.atom k, d] => (parseDump d).map fun d => (k, d)
+      | _ => none
+    let attrs ← attrs.mapM fun x => match x with
+      | .list [.atom k, same] => same.toBool?.map fun s => (k, s)
+      | _ => none
+    some ⟨⟨cls, kind, varr, vshape, vwrit, mask, shape, numer, denom, item, rank, nrank, drank, sz, isz, nsz, dsz,
+           dshape, dkind, units, ro, complete⟩, derivs, attrs⟩
+  | _ => none
+
+def sortKeys {β} (l : List (String × β)) : List (String × β) :=
+  l.mergeSort fun a b => !decide (b.1 < a.1)
+
+partial def dumpSx (o : ObjDump) : Sx :=
+  let b := o.body
+  .list [.atom b.cls.name, kindSx b.kind, Sx.ofBool b.varr, Sx.ofNats b.vshape, Sx.ofBool b.vwritable, maskSx b.mask,
+         Sx.ofNats b.shape, Sx.ofNats b.numer, Sx.ofNats b.denom, Sx.ofNats b.item,
+         Sx.ofNat b.rank, Sx.ofNat b.nrank, Sx.ofNat b.drank, Sx.ofNat b.size, Sx.ofNat b.isize, Sx.ofNat b.nsize,
+         Sx.ofNat b.dsize, Sx.ofNats b.dshape, kindSx b.dkind, Sx.ofBool b.units, Sx.ofBool b.readonly,
+         Sx.ofBool b.complete,
+         .list ((sortKeys o.derivs).map fun d => .list [.atom d.1, dumpSx d.2]),
+         .list ((sortKeys o.attrs).map fun a => .list [.atom a.1, Sx.ofBool a.2])]
+
+def parseRawArr : Sx → Option RawArr
+  | .list [.atom "val", isArr, shape, kind, w] => do
+    let isArr ← isArr.toBool?; let shape ← shape.nats?; let kind ← parseKind kind; let w ← w.toBool?
+    some ⟨isArr, shape, kind, w⟩
+  | _ => none
+
+def parseArgRef : Sx → Option ArgRef
+  | .atom "bad" => some .bad
+  | .list [.atom "obj", i] => i.toNat?.map .obj
+  | x => (parseRawArr x).map .val
+
+def parseRawMask : Sx → Option RawMask
+  | .atom "bad" => some .bad
+  | .list [.atom "bool", b] => b.toBool?.map .bool
+  | .list [.atom "arr", s, k, w] => do
+    let s ← s.nats?; let k ← k.toBool?; let w ← w.toBool?
+    some (.arr s k w)
+  | _ => none
+
+def parseOpt {α} (f : Sx → Option α) : Sx → Option (Option α)
+  | .atom "none" => some none
+  | x => (f x).map some
+
+def parseUnits : Sx → Option RawUnits
+  | .atom "none" => some .none | .atom "false" => some .false_ | .atom "some" => some .some | _ => none
+
+def parseKeys : Sx → Option (List String)
+  | .list l => l.mapM fun x => match x with | .atom k => some k | _ => none
+  | _ => none
+
+def parseCollapse : Sx → Option Collapse
+  | .atom "keep" => some .keep | .atom "T" => some (.to true) | .atom "F" => some (.to false) | _ => none
+
+def parseOp : Sx → Option Op
+  | .list [.atom "ctor", .atom cls, arg, mask, derivs, units, nrank, drank, ex, dflt] => do
+    let cls ← Cls.ofName? cls
+    let arg ← parseArgRef arg
+    let mask ← parseRawMask mask
+    let derivs ← parseOpt (fun x => match x with
+      | .list l => l.mapM fun kd => (match kd with
+        | .list [.atom k, i] => i.toNat?.map fun i => (k, i)
+        | _ => none)
+      | _ => none) derivs
+    let units ← parseUnits units
+    let nrank ← parseOpt Sx.toInt? nrank
+    let drank ← parseOpt Sx.toInt? drank
+    let ex ← parseOpt Sx.toNat? ex
+    let dflt ← parseOpt (fun x => match x with
+      | .list [s, k] => do
+        let s ← s.nats?; let k ← parseKind k
+        some (s, k)
+      | _ => none) dflt
+    some (.ctor cls arg mask derivs units nrank drank ex dflt)
+  | .list [.atom "insert_deriv", p, .atom key, d, ov] => do
+    let p ← p.toNat?; let d ← d.toNat?; let ov ← ov.toBool?
+    some (.insertDeriv p key d ov)
+  | .list [.atom "delete_deriv", p, .atom key, ov] => do
+    let p ← p.toNat?; let ov ← ov.toBool?
+    some (.deleteDeriv p key ov)
+  | .list [.atom "delete_derivs", p, ov] => do
+    let p ← p.toNat?; let ov ← ov.toBool?
+    some (.deleteDerivs p ov)
+  | .list [.atom "as_readonly", p] => p.toNat?.map .asReadonly
+  | .list [.atom "set_values", p, v, m] => do
+    let p ← p.toNat?; let v ← parseRawArr v; let m ← parseOpt parseMaskD m
+    some (.setValues p v m)
+  | .list [.atom "set_mask", p, m] => do
+    let p ← p.toNat?; let m ← parseRawMask m
+    some (.setMask p m)
+  | .list [.atom "clone", p, r, keys] => do
+    let p ← p.toNat?; let r ← r.toBool?; let keys ← parseKeys keys
+    some (.clone p r keys)
+  | .list [.atom "wod", p] => p.toNat?.map .wod
+  | .list [.atom "without_deriv", p, .atom key] => p.toNat?.map fun p => .withoutDeriv p key
+  | .list [.atom "copy", p, r, ro] => do
+    let p ← p.toNat?; let r ← r.toBool?; let ro ← ro.toBool?
+    some (.copy p r ro)
+  | .list [.atom "as_float", p] => p.toNat?.map .asFloat
+  | .list [.atom "broadcast_to", p, s] => do
+    let p ← p.toNat?; let s ← s.nats?
+    some (.broadcastTo p s)
+  | .list [.atom "pickle", p, c, .list dc] => do
+    let p ← p.toNat?
+    let c ← parseCollapse c
+    let dc ← dc.mapM fun x => match x with
+      | .list [.atom k, c] => (parseCollapse c).map fun c => (k, c)
+      | _ => none
+    some (.pickle p c dc)
+  | .list [.atom "deriv", p, .atom key] => p.toNat?.map fun p => .deriv p key
+  | _ => none
+
+def handle : List Sx → Sx
+  | [.atom "wf", .list dumps] =>
+    match dumps.mapM parseDump with
+    | some ds => .list (ds.map fun d => Sx.ofBools (wfClauses d))
+    | none => err "dump"
+  | [.atom "prog", .list starts, .list ops] =>
+    match starts.mapM parseDump, ops.mapM parseOp with
+    | some pool, some ops => .list ((run pool ops).map dumpSx)
+    | none, _ => err "dump"
+    | _, none => err "op"
+  | [.atom "step", .list pool, op] =>
+    -- one call of the model on the dumps of the real pool: the object produced / replaced, or `error`
+    match pool.mapM parseDump, parseOp op with
+    | some pool, some op =>
+      (match effect pool op with
+       | .none => .atom "error"
+       | .set _ o => dumpSx o
+       | .push o => dumpSx o)
+    | none, _ => err "dump"
+    | _, none => err "op"
+  | _ => err "c05-op"
+
+end Drv.C05
+
+def main : IO Unit := Drv.runLoop fun x =>
+  match x with
+  | .list (.atom "c05" :: rest) => Drv.C05.handle rest
+  | _ => .atom "bad-op"
